@@ -426,5 +426,4 @@ def run(tier, seed, pool, t0):
              'transition (also those leading to known states) is executed on the real server by replaying its history on '
              'fresh hosted objects; non-trivial = history of length >= 2',
         extra=dict(transitions=sum(getattr(c, 'transitions', 0) for c in stats), states=sum(c.nodes for c in stats)),
-        exhaustive_note='states = canonical model states reached; transitions = histories executed against the real server '
-                        '(each one is an implementation trace, hence also counted in traces_validated_against_impl).')
+        explanation='states = canonical states of the reference model reached by the breadth-first search; transitions = histories executed against the real manager server and real client processes (one per model transition, also those leading to known states); every transition is an implementation trace, hence traces_validated_against_impl = transitions. There is no scheduler nondeterminism: every RPC is synchronous.')
